@@ -138,16 +138,31 @@ func normBindings(bs match.Bindings) map[string]interface{} {
 func persistComponent(g *G, n int, opts map[string]string) *Out {
 	g.mode = "c09"
 	o := newOut("Corr.PersistCorr", "pcase")
+	var replay []*persistCase
+	if path := opts["replay"]; path != "" {
+		var w struct {
+			Cases []*persistCase `json:"cases"`
+		}
+		loadJSON(path, &w)
+		replay = w.Cases
+		n = len(replay)
+	}
 	for i := 0; i < n; i++ {
-		as := g.aspec(opts)
-		as.noLoops()
-		st := g.astate(as)
+		var as *ASpec
+		var st *AState
 		var msgs []interface{}
-		node := st.Node
-		for k := 1 + g.intn(5); k > 0; k-- {
-			msgs = append(msgs, g.messageFor(as, node))
-			names := sortedKeys(nodesAsMap(as))
-			node = names[g.intn(len(names))]
+		if replay != nil {
+			as, st, msgs = replay[i].Spec, replay[i].State, replay[i].Msgs
+		} else {
+			as = g.aspec(opts)
+			as.noLoops()
+			st = g.astate(as)
+			node := st.Node
+			for k := 1 + g.intn(5); k > 0; k-- {
+				msgs = append(msgs, g.messageFor(as, node))
+				names := sortedKeys(nodesAsMap(as))
+				node = names[g.intn(len(names))]
+			}
 		}
 		spec, err := as.build()
 		if err != nil {
